@@ -53,7 +53,7 @@ C05ThoroughConfigs ==
     \cup Mk(TimeLoops({0, 1, 2, 3, 4}, {1, 2, 3, 4}), {Unthrottled, Det(1, 1), Det(1, 2)},
             {Single, <<2, 1, 2, 0>>, <<2, 1, 2, 2>>, <<1, 1, 2, 2>>, <<2, 1, 4, 4>>, <<2, 3, 4, 4>>}, {1})
     \cup Mk(TimeLoops({0, 2}, {3}), {Poi(1, 1)}, {Single, <<2, 1, 2, 2>>}, {1})
-C05ThoroughSvcs == {0, 1, 2, 3}
+C05ThoroughSvcs == {0, 1, 3}
 
 (* ---- simulation (S2C): wide alphabets, 1 tick = 1 s and 1 tick = 1/4 s ---- *)
 SimConfigs ==
